@@ -1,19 +1,32 @@
-"""Registry of claimed properties (source of MANIFEST.json; run tools/mkmanifest.py after editing)."""
+"""Registry of claimed properties: every checks/cNN.py carries a module-level META dict
+(engine, technique, text, note, ref[, category]); NOT_APPLICABLE gives the reason for unclaimed ones.
+Run tools/mkmanifest.py after adding a check."""
+import glob
+import importlib
+import os
+import re
+import sys
 
-# id -> dict(engine, technique, text, note, ref)
-CLAIMED = {
-    "C39": dict(
-        engine="tlc-replay",
-        technique="TLA+ spec Vfs.tla model-checked by TLC; spec behaviours (edge cover of the exhaustive graph + "
-                  "simulation) replayed into the public VFS/resource API with a per-state query battery",
-        text="TLC decides set semantics modulo the path-reduction key on Vfs.tla for all histories up to the bound; "
-             "every transition of the 3-operation graph and simulated 12-operation behaviours are replayed into "
-             "mj_addBufferVFS/mj_addFileVFS/mj_deleteFileVFS/mj_contains*VFS/mju_openResource and compared step by step.",
-        note="Trusted: TLC, the harness vfs_drv.cc, Render() of abstract names; legacy base-name lookups with several "
-             "candidates are excluded (unordered_map iteration order).",
-        ref="DESIGN.md section 4 C39"),
-}
+VERIF = os.path.dirname(os.path.dirname(os.path.abspath(__file__)))
+sys.path.insert(0, VERIF)
 
-# id -> reason (properties not claimed)
+CLAIMED = {}
+for f in sorted(glob.glob(os.path.join(VERIF, "checks", "c[0-9]*.py"))):
+    pid = os.path.basename(f)[:-3].upper()
+    src = open(f).read()
+    if not re.search(r'^META\s*=', src, re.M):
+        continue
+    if re.search(r'^DISABLED\s*=\s*True', src, re.M):
+        continue
+    mod = importlib.import_module("checks." + pid.lower())
+    CLAIMED[pid] = mod.META
+
+# id -> reason (properties not claimed); anything else unclaimed gets the generic "not built yet" reason
 NOT_APPLICABLE = {
+    "C08": "Energy/momentum drift and its order of convergence are statements about floating-point integration error over the reals; TLC has no reals and no finite abstract state carries the claim.",
+    "C10": "Optimality of Newton/CG/PGS against a reference optimizer is numerical optimisation accuracy; there is no finite abstract state for TLC to enumerate and no exact oracle off closed-form cases.",
+    "C15": "GJK/EPA depth against a convex-optimisation reference is numeric geometry; the libccd branch cannot even be built offline.",
+    "C25": "Analytic vs finite-difference derivatives is an accuracy comparison between two numeric procedures, outside what a TLA+ model can decide.",
+    "C45": "JAX gradients vs finite differences: numeric accuracy comparison, outside what a TLA+ model can decide.",
+    "C47": "Positivity/physicality of the log-Cholesky map over all of R^10 involves exp and real algebra; TLC has no reals (an SMT/proof-assistant job, not this family).",
 }
